@@ -43,14 +43,22 @@ type Publisher struct {
 func NewPublisher(doc *gedcom.Document, options *PublishShowOptions) *Publisher {
 	options.surnames = collectSurnames(doc, options.LivingVisibility)
 
-	return &Publisher{
+	publisher := &Publisher{
 		doc:          doc,
 		options:      options,
 		indexLetters: GetIndexLetters(doc, options.LivingVisibility),
-
-		// placesMap can be nil because we handle found the places yet.
-		individuals: GetIndividuals(doc, nil),
 	}
+
+	// The places have to be known before the first page is created. The file
+	// name of an individual depends on them (see getUniqueKey) and every page
+	// has to come to the same file name for the same individual.
+	if options.ShowPlaces {
+		publisher.Places()
+	}
+
+	publisher.individuals = GetIndividuals(doc, publisher.placesMap)
+
+	return publisher
 }
 
 func (publisher *Publisher) Publish(fileWriter core.FileWriter, parallel int) (err error) {
